@@ -263,6 +263,7 @@ func runC06Driver(c *Ctx) {
 		// — a second commit, a second rollback, a rollback before any try — cannot be told from a first one by an
 		// application that goes through the driver (known finding)
 		st, skipType := "", false
+		secondCommitFails := false
 		fenceDriverSeq++
 		name := fmt.Sprintf("verif-fence-%d", fenceDriverSeq)
 		sql.Register(name, &fence.FenceDriver{TargetDriver: e.Driver()})
@@ -345,6 +346,14 @@ func runC06Driver(c *Ctx) {
 					if failing {
 						e.AddFault(memdb.Fault{Kind: "commit", Nth: 1})
 					}
+					if i%5 == 3 && k == 0 && ph == 'P' {
+						// every fifth sequence, otherwise: the SECOND commit of the first delivery fails - the driver
+						// commits the business transaction on one connection and the fence transaction on another,
+						// one after the other (known finding: the two do not commit together). For the model the
+						// delivery fails and nothing of it stays.
+						e.AddFault(memdb.Fault{Kind: "commit", Nth: 2})
+						failing, secondCommitFails = true, true
+					}
 					err = tx.Commit()
 					e.ClearFaults()
 				}
@@ -390,6 +399,10 @@ func runC06Driver(c *Ctx) {
 		tag := fmt.Sprintf("nontrivial=%d", b2i(len(seq) > 1))
 		if skipType {
 			c.Out.Count("fence-driver.with-a-delivery-to-skip")
+		}
+		if secondCommitFails {
+			tag += " known=fence_driver_commits_on_two_connections"
+			c.Out.Count("fence-driver.second-commit-fails")
 		}
 		c.Out.Tag(cid, tag)
 		c.Out.Count("fence-driver")
